@@ -31,9 +31,9 @@ def run(ck):
     ck.bounds += ['constructors (Engine A): none beyond the types', 'plumbing (Engine B): zones with <= 2 transitions, <= 1 leap record, rule none or Fixed; comparisons: two arbitrary DateTime literals (even inconsistent ones)']
     ck.trusted += ['rustc MIR + encoder + cvc5/z3', 'Kani/CBMC', 'C01 (from_timespec fields are the calendar fields of its argument) and C02 (unix_time is the true count) for the meaning of the invariant']
     ck.stubs += ['S_pack in c03_plumb (UtcDateTime::from_timespec := range gate + injective packing; discharged by C01)', 'S_unreach in c03_plumb']
-    hs = [H('c14_eq_ord', cap=600, meaning='== and partial_cmp depend only on (unix_time, nanoseconds), never None'),
+    hs = [H('c14_eq_ord', cap=600, playback=True, meaning='== and partial_cmp depend only on (unix_time, nanoseconds), never None'),
           H('c03_plumb', cap=1500, meaning='from_timespec(t,ns,zone) and project(): instant and nanoseconds preserved, type = lookup result, fields = fields of t+offset, OutOfRange iff t+offset leaves the range'),
-          H('c02_derive_ord_is_lexicographic', cap=600, meaning='derive(Ord/Eq) of UtcDateTime is lexicographic on the field tuple')]
+          H('c02_derive_ord_is_lexicographic', cap=600, playback=True, meaning='derive(Ord/Eq) of UtcDateTime is lexicographic on the field tuple')]
     kprop.run_harnesses(ck, hs)
     A = EngineA(ck, unwind={'from_timespec': 12})
     ex = A.ex
@@ -117,6 +117,8 @@ def run(ck):
 
 
 def replay(ck, case):
+    if case['case'].get('kind') == 'kani-playback':
+        return kprop.replay_playback(ck, case)
     nat = common.Native()
     c = case['case']
     out = nat.both([c['cmd']])[0]
